@@ -20,8 +20,8 @@ while IFS=$'\t' read -r f a b txt; do
     *two_hop*) cs="C17 C14 C03";;
     *swap*) cs="C14 C03 C16";;
     *lock*|*close_*|*open_*|*reset_position*|*bundle*) cs="C18 C04 C13";;
+    *adaptive*|*set_*|*initialize_*|*token_badge*) cs="C19 C14 C04 C13 C11";;
     *reward*|*collect*|*update_fees*) cs="C11 C07 C06 C01";;
-    *adaptive*|*set_*|*initialize_*|*token_badge*) cs="C19 C14 C04 C13";;
     *) cs="C04 C15 C18 C19";;
   esac
   last=$(sed -n "${b}p" $D/$f)
